@@ -88,6 +88,8 @@ func main() {
 		dbt.RunScenarios(dbt.OplogScenarios(), mk, flush)
 	case "index":
 		dbt.RunScenarios(dbt.IndexScenarios(), mk, flush)
+	case "options":
+		dbt.RunScenarios(dbt.OptionScenarios(), mk, flush)
 	case "nested":
 		dbt.RunScenarios(dbt.NestedScenarios(), mk, flush)
 	case "reload":
